@@ -4,13 +4,25 @@
 //
 // case line: <id> <arch> <inst-name|#id> <opts-hex> <extra|-> <nops> <op>...
 // operand tokens: R:<rtype>:<id>  Rn:<regtype-number>:<id>  I:<int>  L:0 (bound here) L:1 (new, unbound) Lraw:<id>  N (none)
-//                 M:size:basetype:baseid:indextype:indexid:shift:disp:seg:bcst:addr   basetype may be label|labelraw|none|<rtype>|#<n>
+//                 M:size:basetype:baseid:indextype:indexid:shift:disp:seg:bcst:addr[:home]   basetype may be label|labelraw|none|<rtype>|#<n>
+//                 (home = 1: Mem::set_reg_home(), the base names the home slot of a virtual register)
+// register ids >= 256 are virtual-range ids: the Compiler job creates kRealVirt real virtual registers first (ids 256..), every other
+// virtual-range id names no register.
+//
+// options: --emitter asm|builder|compiler  --handler return|throw|none  --handler-on holder|emitter  --validate 1|0 (asm only)
+//          --reattach N   every N cases the emitter leaves its CodeHolder (detach / reset / destruction in turn), is asked to emit while
+//                         detached (must refuse with kNotInitialized and tell its own handler) and is attached to a fresh holder
+//          --pass2 1      Builder/Compiler: a second emitter gets ONLY the lines that failed, then the probe, and is finalized: its code
+//                         must equal a fresh emitter's (failed calls leave nothing that changes later output)
+//          --iso N        Compiler: up to N accepted lines that mention a virtual-range id run alone in a fresh function that is
+//                         finalized; a non-existent virtual id must make finalize fail and report exactly once
 #include <asmjit/core.h>
 #include <asmjit/x86.h>
 #include "vcommon.h"
 #include <iostream>
 #include <sstream>
 #include <fstream>
+#include <memory>
 
 using namespace asmjit;
 
@@ -73,6 +85,170 @@ static void emit_probe(E& e) {
   e.ret();
 }
 
+static const uint32_t kRealVirt = 4;     // gp32, gp64, xmm, k (vlib/props/c14.py: REAL_VIRT)
+
+// One emitter with its CodeHolder and handler.
+struct Ctx {
+  Environment env;
+  std::string emitter, handler;
+  bool own = false, validate = true;
+  std::unique_ptr<CodeHolder> code;
+  Handler eh;
+  x86::Assembler a;
+  x86::Builder b;
+  x86::Compiler c;
+  BaseEmitter* e = nullptr;
+  BaseBuilder* bb = nullptr;
+  uint32_t real_virt[kRealVirt] = {};
+  uint32_t real_virt_count = 0;
+
+  Ctx(const Environment& env_, const std::string& emitter_, const std::string& handler_, bool own_, bool validate_)
+    : env(env_), emitter(emitter_), handler(handler_), own(own_), validate(validate_) {
+    eh.do_throw = handler == "throw";
+    e = emitter == "asm" ? (BaseEmitter*)&a : emitter == "builder" ? (BaseEmitter*)&b : (BaseEmitter*)&c;
+    bb = emitter == "asm" ? nullptr : static_cast<BaseBuilder*>(e);
+    if (own && handler != "none") e->set_error_handler(&eh);
+    attach_fresh();
+  }
+
+  // a fresh CodeHolder; the emitter must be detached
+  void attach_fresh() {
+    code.reset(new CodeHolder());
+    code->init(env);
+    if (!own && handler != "none") code->set_error_handler(&eh);
+    code->attach(e);
+    if (emitter == "asm") { if (validate) a.add_diagnostic_options(DiagnosticOptions::kValidateAssembler); }
+    else e->add_diagnostic_options(DiagnosticOptions::kValidateIntermediate);
+    real_virt_count = 0;
+    if (emitter == "compiler") {
+      c.add_func(FuncSignature::build<void>());
+      x86::Gp v0 = c.new_gp32("v0"), v1 = c.new_gp_ptr("v1"); x86::Vec v2 = c.new_xmm("v2"); x86::KReg v3 = c.new_kq("v3");
+      real_virt[0] = v0.id(); real_virt[1] = v1.id(); real_virt[2] = v2.id(); real_virt[3] = v3.id();
+      real_virt_count = kRealVirt;
+    }
+    eh.calls = 0;
+  }
+
+  bool is_real_virt(uint32_t id) const { for (uint32_t i = 0; i < real_virt_count; i++) if (real_virt[i] == id) return true; return false; }
+};
+
+struct Case {
+  std::string id, name;
+  InstId inst_id = 0;
+  Operand ops[6];
+  int nops = 0;
+  uint32_t opts = 0;
+  bool has_extra = false; Reg extra;
+  bool bad = false;
+  bool virt = false, ghost_virt = false;     // mentions a virtual-range id / one that names no virtual register
+  // ... in an operand the validator looks at: a register / address register of a defined type, not behind a gap in the operand list
+  bool lead_ghost = false, lead_invalid_id = false;
+  bool gap = false;
+};
+
+static void note_id(Ctx& X, Case& C, uint32_t id, bool defined_type = false) {
+  if (id >= Operand::kVirtIdMin) {
+    C.virt = true;
+    if (!X.is_real_virt(id)) {
+      C.ghost_virt = true;
+      if (defined_type && !C.gap) { C.lead_ghost = true; if (id == Globals::kInvalidId) C.lead_invalid_id = true; }
+    }
+  }
+}
+
+// parses the case line; label operands create (and bind) labels on X's emitter
+static void parse_case(Ctx& X, const std::string& line, Case& C) {
+  std::istringstream ss(line);
+  std::string arch_tok, opts_s, extra_s;
+  ss >> C.id >> arch_tok >> C.name >> opts_s >> extra_s >> C.nops;
+  BaseEmitter* e = X.e;
+  if (C.name[0] == '#') C.inst_id = (InstId)strtoul(C.name.c_str() + 1, nullptr, 0);
+  else C.inst_id = InstAPI::string_to_inst_id(X.env.arch(), C.name.c_str(), C.name.size());
+  Label self_label;
+  for (int i = 0; i < C.nops && i < 6; i++) {
+    std::string tok; ss >> tok;
+    std::vector<std::string> p = split(tok, ':');
+    if (p[0] == "R") { uint32_t id = (uint32_t)strtoul(p[2].c_str(), nullptr, 0); note_id(X, C, id, true); C.ops[i] = Reg::from_type_and_id(reg_type_of(p[1]), id); }
+    else if (p[0] == "Rn") { uint32_t id = (uint32_t)strtoul(p[2].c_str(), nullptr, 0); note_id(X, C, id); C.gap = true; C.ops[i] = Reg::from_type_and_id(RegType(strtoul(p[1].c_str(), nullptr, 0) & 31), id); }
+    else if (p[0] == "I") C.ops[i] = Imm((int64_t)strtoll(p[1].c_str(), nullptr, 0));
+    else if (p[0] == "N") { C.ops[i] = Operand(); C.gap = true; }
+    else if (p[0] == "Lraw") C.ops[i] = Label((uint32_t)strtoul(p[1].c_str(), nullptr, 0));
+    else if (p[0] == "L") {
+      if (atoi(p[1].c_str()) == 0) { if (!self_label.is_valid()) { self_label = e->new_label(); e->bind(self_label); } C.ops[i] = self_label; }
+      else C.ops[i] = e->new_label();
+    }
+    else if (p[0] == "M" && p.size() >= 11) {
+      uint32_t size = (uint32_t)strtoul(p[1].c_str(), nullptr, 0);
+      std::string bt = p[2]; uint32_t bid = (uint32_t)strtoul(p[3].c_str(), nullptr, 0);
+      std::string it = p[4]; uint32_t iid = (uint32_t)strtoul(p[5].c_str(), nullptr, 0);
+      uint32_t shift = (uint32_t)strtoul(p[6].c_str(), nullptr, 0) & 3;
+      int64_t disp = strtoll(p[7].c_str(), nullptr, 0);
+      uint32_t seg = (uint32_t)strtoul(p[8].c_str(), nullptr, 0) & 7;
+      uint32_t bcst = (uint32_t)strtoul(p[9].c_str(), nullptr, 0) & 7;
+      std::string addr = p[10];
+      bool home = p.size() >= 12 && p[11] == "1";
+      x86::Mem m;
+      bool has_index = it != "none";
+      Reg idx = has_index ? Reg::from_type_and_id(reg_type_of(it), iid) : Reg();
+      if (has_index) note_id(X, C, iid, it[0] != '#');
+      if (bt == "none") m = has_index ? x86::Mem(uint64_t(disp), idx, shift, size) : x86::Mem(uint64_t(disp), size);
+      else if (bt == "label" || bt == "labelraw") {
+        Label l;
+        if (bt == "labelraw") l = Label(bid);
+        else { if (!self_label.is_valid()) { self_label = e->new_label(); e->bind(self_label); } l = self_label; }
+        m = has_index ? x86::Mem(l, idx, shift, int32_t(disp), size) : x86::Mem(l, int32_t(disp), size);
+      }
+      else {
+        note_id(X, C, bid, bt[0] != '#');
+        Reg base = Reg::from_type_and_id(reg_type_of(bt), bid);
+        m = has_index ? x86::Mem(base, idx, shift, int32_t(disp), size) : x86::Mem(base, int32_t(disp), size);
+      }
+      if (seg) m.set_segment(seg);
+      if (bcst) m.set_broadcast(x86::Mem::Broadcast(bcst));
+      if (addr == "abs") m.set_addr_abs(); else if (addr == "rel") m.set_addr_rel();
+      if (home) m.set_reg_home();
+      C.ops[i] = m;
+    }
+    else C.bad = true;
+  }
+  C.opts = (uint32_t)strtoul(opts_s.c_str(), nullptr, 16);
+  if (extra_s != "-") {
+    std::vector<std::string> p = split(extra_s, ':');
+    uint32_t id = (uint32_t)strtoul(p[1].c_str(), nullptr, 0);
+    note_id(X, C, id);
+    C.extra = Reg::from_type_and_id(reg_type_of(p[0]), id); C.has_extra = true;
+  }
+}
+
+static void arm_oneshot(Ctx& X, const Case& C, size_t ncase) {
+  if (C.has_extra) X.e->set_extra_reg(C.extra);
+  X.e->set_inst_options(InstOptions(C.opts));
+  if (ncase % 7 == 3) X.e->set_inline_comment("c14");
+}
+
+static Error guarded_emit(Ctx& X, const Case& C, bool& threw) {
+  threw = false;
+  if (C.bad) return Error::kInvalidArgument;
+  try { return X.e->emit_op_array(C.inst_id, C.ops, (size_t)C.nops); }
+  catch (int ex) { threw = true; return Error(ex); }
+}
+
+static bool clear_oneshot(BaseEmitter* e) {
+  bool left = uint32_t(e->inst_options()) != 0 || e->extra_reg().is_reg() || e->inline_comment() != nullptr;
+  if (left) { e->reset_inst_options(); e->reset_extra_reg(); e->reset_inline_comment(); }
+  return left;
+}
+
+template<typename F> static Error guarded_call(F&& f, bool& threw) {
+  threw = false;
+  try { return f(); } catch (int ex) { threw = true; return Error(ex); }
+}
+
+static std::string text_hex(CodeHolder& code) {
+  Section* text = code.text_section();
+  return hexstr(text->data(), text->buffer_size());
+}
+
 int main(int argc, char** argv) {
   Args args(argc, argv);
   std::string in = args.str("cases", "-");
@@ -81,22 +257,17 @@ int main(int argc, char** argv) {
   std::string arch_s = args.str("arch", "x64");
   Arch arch = arch_s == "x64" ? Arch::kX64 : Arch::kX86;
   size_t probe_every = args.u64("probe-every", 256);
+  bool own = args.str("handler-on", "holder") == "emitter";
+  bool validate = args.u64("validate", 1) != 0;
+  size_t reattach = args.u64("reattach", 0);
+  bool pass2 = args.u64("pass2", 0) != 0;
+  size_t iso_max = args.u64("iso", 0);
 
   Environment env(arch);
-  CodeHolder code;
-  Handler eh;
-  eh.do_throw = handler == "throw";
-  code.init(env);
-  if (handler != "none") code.set_error_handler(&eh);
-
-  x86::Assembler a;
-  x86::Builder b;
-  x86::Compiler c;
-  BaseEmitter* e = nullptr;
-  if (emitter == "asm") { code.attach(&a); a.add_diagnostic_options(DiagnosticOptions::kValidateAssembler); e = &a; }
-  else if (emitter == "builder") { code.attach(&b); b.add_diagnostic_options(DiagnosticOptions::kValidateIntermediate); e = &b; }
-  else { code.attach(&c); c.add_diagnostic_options(DiagnosticOptions::kValidateIntermediate); e = &c; c.add_func(FuncSignature::build<void>()); }
-  BaseBuilder* bb = emitter == "asm" ? nullptr : static_cast<BaseBuilder*>(e);
+  Ctx X(env, emitter, handler, own, validate);
+  BaseEmitter* e = X.e;
+  BaseBuilder* bb = X.bb;
+  x86::Assembler& a = X.a;
 
   std::istream* is = &std::cin;
   std::ifstream f;
@@ -105,70 +276,16 @@ int main(int argc, char** argv) {
   std::string out;
   size_t ncase = 0;
   std::vector<std::string> probe_bytes;   // probes emitted on the used assembler (asm mode only)
+  std::vector<std::pair<size_t, std::string>> failed_lines, iso_lines;      // (case number, line)
+  size_t reattaches = 0, detached_calls = 0;
+  std::vector<std::string> detached_viol;
 
   while (std::getline(*is, line)) {
     if (line.empty()) continue;
-    std::istringstream ss(line);
-    std::string id, arch_tok, name, opts_s, extra_s; int nops = 0;
-    ss >> id >> arch_tok >> name >> opts_s >> extra_s >> nops;
-
-    InstId inst_id;
-    if (name[0] == '#') inst_id = (InstId)strtoul(name.c_str() + 1, nullptr, 0);
-    else inst_id = InstAPI::string_to_inst_id(arch, name.c_str(), name.size());
-
-    Operand ops[6];
-    Label self_label;
-    bool bad = false;
-    for (int i = 0; i < nops && i < 6; i++) {
-      std::string tok; ss >> tok;
-      std::vector<std::string> p = split(tok, ':');
-      if (p[0] == "R") ops[i] = Reg::from_type_and_id(reg_type_of(p[1]), (uint32_t)strtoul(p[2].c_str(), nullptr, 0));
-      else if (p[0] == "Rn") ops[i] = Reg::from_type_and_id(RegType(strtoul(p[1].c_str(), nullptr, 0) & 31), (uint32_t)strtoul(p[2].c_str(), nullptr, 0));
-      else if (p[0] == "I") ops[i] = Imm((int64_t)strtoll(p[1].c_str(), nullptr, 0));
-      else if (p[0] == "N") ops[i] = Operand();
-      else if (p[0] == "Lraw") ops[i] = Label((uint32_t)strtoul(p[1].c_str(), nullptr, 0));
-      else if (p[0] == "L") {
-        if (atoi(p[1].c_str()) == 0) { if (!self_label.is_valid()) { self_label = e->new_label(); e->bind(self_label); } ops[i] = self_label; }
-        else ops[i] = e->new_label();
-      }
-      else if (p[0] == "M") {
-        uint32_t size = (uint32_t)strtoul(p[1].c_str(), nullptr, 0);
-        std::string bt = p[2]; uint32_t bid = (uint32_t)strtoul(p[3].c_str(), nullptr, 0);
-        std::string it = p[4]; uint32_t iid = (uint32_t)strtoul(p[5].c_str(), nullptr, 0);
-        uint32_t shift = (uint32_t)strtoul(p[6].c_str(), nullptr, 0) & 3;
-        int64_t disp = strtoll(p[7].c_str(), nullptr, 0);
-        uint32_t seg = (uint32_t)strtoul(p[8].c_str(), nullptr, 0) & 7;
-        uint32_t bcst = (uint32_t)strtoul(p[9].c_str(), nullptr, 0) & 7;
-        std::string addr = p[10];
-        x86::Mem m;
-        bool has_index = it != "none";
-        Reg idx = has_index ? Reg::from_type_and_id(reg_type_of(it), iid) : Reg();
-        if (bt == "none") m = has_index ? x86::Mem(uint64_t(disp), idx, shift, size) : x86::Mem(uint64_t(disp), size);
-        else if (bt == "label" || bt == "labelraw") {
-          Label l;
-          if (bt == "labelraw") l = Label(bid);
-          else { if (!self_label.is_valid()) { self_label = e->new_label(); e->bind(self_label); } l = self_label; }
-          m = has_index ? x86::Mem(l, idx, shift, int32_t(disp), size) : x86::Mem(l, int32_t(disp), size);
-        }
-        else {
-          Reg base = Reg::from_type_and_id(reg_type_of(bt), bid);
-          m = has_index ? x86::Mem(base, idx, shift, int32_t(disp), size) : x86::Mem(base, int32_t(disp), size);
-        }
-        if (seg) m.set_segment(seg);
-        if (bcst) m.set_broadcast(x86::Mem::Broadcast(bcst));
-        if (addr == "abs") m.set_addr_abs(); else if (addr == "rel") m.set_addr_rel();
-        ops[i] = m;
-      }
-      else bad = true;
-    }
-
-    uint32_t opts = (uint32_t)strtoul(opts_s.c_str(), nullptr, 16);
-    if (extra_s != "-") {
-      std::vector<std::string> p = split(extra_s, ':');
-      e->set_extra_reg(Reg::from_type_and_id(reg_type_of(p[0]), (uint32_t)strtoul(p[1].c_str(), nullptr, 0)));
-    }
-    e->set_inst_options(InstOptions(opts));
-    if (ncase % 7 == 3) e->set_inline_comment("c14");
+    CodeHolder& code = *X.code;
+    Case C;
+    parse_case(X, line, C);
+    arm_oneshot(X, C, ncase);
 
     size_t off0 = bb ? 0 : a.offset();
     uint64_t hash0 = bb ? 0 : fnv1a(a.buffer_data(), a.offset());
@@ -177,34 +294,55 @@ int main(int argc, char** argv) {
     size_t rel0 = code.reloc_entries().size();
     size_t sec0 = code.section_count();
     size_t nodes0 = bb ? count_nodes(bb) : 0;
-    eh.calls = 0;
-    Error err = Error::kOk;
+    BaseNode* cursor0 = bb ? bb->cursor() : nullptr;
+    X.eh.calls = 0;
     bool threw = false;
-    if (bad) err = Error::kInvalidArgument;
-    else {
-      try { err = e->emit_op_array(inst_id, ops, (size_t)nops); }
-      catch (int ex) { threw = true; err = Error(ex); }
-    }
+    Error err = guarded_emit(X, C, threw);
     size_t off1 = bb ? 0 : a.offset();
     bool prefix_changed = !bb && err != Error::kOk && fnv1a(a.buffer_data(), off0) != hash0;
-    bool oneshot_left = uint32_t(e->inst_options()) != 0 || e->extra_reg().is_reg() || e->inline_comment() != nullptr;
-    if (oneshot_left) { e->reset_inst_options(); e->reset_extra_reg(); e->reset_inline_comment(); }
+    bool oneshot_left = clear_oneshot(e);
+    bool cursor_moved = bb && err != Error::kOk && bb->cursor() != cursor0;
 
-    char head[320];
-    snprintf(head, sizeof head, "{\"id\":%s,\"err\":%u,\"h\":%d,\"threw\":%d,\"oneshot\":%d,\"db\":%ld,\"dl\":%ld,\"df\":%ld,\"dr\":%ld,\"ds\":%ld,\"dn\":%ld,\"pc\":%d,\"bytes\":\"",
-             id.c_str(), unsigned(err), eh.calls, int(threw), int(oneshot_left), long(off1) - long(off0),
+    char head[400];
+    snprintf(head, sizeof head, "{\"id\":%s,\"err\":%u,\"h\":%d,\"threw\":%d,\"oneshot\":%d,\"db\":%ld,\"dl\":%ld,\"df\":%ld,\"dr\":%ld,\"ds\":%ld,\"dn\":%ld,\"pc\":%d,\"cur\":%d,\"virt\":%d,\"bytes\":\"",
+             C.id.c_str(), unsigned(err), X.eh.calls, int(threw), int(oneshot_left), long(off1) - long(off0),
              long(code.label_count()) - long(labels0), long(code.unresolved_fixup_count()) - long(fix0),
              long(code.reloc_entries().size()) - long(rel0), long(code.section_count()) - long(sec0),
-             bb ? long(count_nodes(bb)) - long(nodes0) : 0L, int(prefix_changed));
+             bb ? long(count_nodes(bb)) - long(nodes0) : 0L, int(prefix_changed), int(cursor_moved), C.ghost_virt ? 2 : C.virt ? 1 : 0);
     out += head;
     if (!bb && off1 > off0) out += hexstr(a.buffer_data() + off0, off1 - off0);
     out += "\"}\n";
+    if (err != Error::kOk && !C.bad && failed_lines.size() < 6000) failed_lines.push_back({ncase, line});
+    if (err == Error::kOk && C.virt && emitter == "compiler" && iso_lines.size() < iso_max) iso_lines.push_back({ncase, line});
     ncase++;
 
     if (!bb && ncase % probe_every == 0) {
       size_t p0 = a.offset();
       emit_probe(a);
       probe_bytes.push_back(hexstr(a.buffer_data() + p0, a.offset() - p0));
+    }
+
+    if (reattach && ncase % reattach == 0) {
+      // the emitter leaves its holder (three ways in turn), is used while detached, and goes on with a fresh holder
+      switch (reattaches % 3) {
+        case 0: X.code->detach(e); break;
+        case 1: X.code->reset(ResetPolicy::kHard); break;
+        default: X.code.reset(); break;
+      }
+      reattaches++;
+      X.eh.calls = 0;
+      bool t2 = false;
+      Error de = guarded_call([&] { return e->emit(x86::Inst::kIdMov, x86::eax, x86::ebx); }, t2);
+      detached_calls++;
+      int want = (own && handler != "none") ? 1 : 0;
+      char db[200];
+      if (de != Error::kNotInitialized) { snprintf(db, sizeof db, "emit on the detached emitter returned %u (expected kNotInitialized)", unsigned(de)); detached_viol.push_back(std::string("detached-call-result|") + db); }
+      if (X.eh.calls != want && (emitter == "asm" || X.eh.calls > want)) {
+        snprintf(db, sizeof db, "emit on the detached emitter (error %u) called the %s handler %d times, expected %d", unsigned(de), own ? "emitter's own" : "former holder's", X.eh.calls, want);
+        detached_viol.push_back(std::string(X.eh.calls > want ? "detached-call-stale-handler|" : "detached-call-handler-not-called|") + db);
+      }
+      if (want && handler == "throw" && X.eh.calls && !t2) detached_viol.push_back("detached-call-exception-swallowed|the own handler threw but emit returned normally");
+      X.attach_fresh();
     }
     if (out.size() > (1 << 20)) { fwrite(out.data(), 1, out.size(), stdout); out.clear(); }
   }
@@ -220,8 +358,8 @@ int main(int argc, char** argv) {
   }
   else {
     // Builder/Compiler: the probe is appended and everything is finalized; only the tail is compared.
-    if (emitter == "compiler") { emit_probe(c); c.end_func(); try { fin = c.finalize(); } catch (int ex) { fin = Error(ex); } }
-    else { emit_probe(b); try { fin = b.finalize(); } catch (int ex) { fin = Error(ex); } }
+    if (emitter == "compiler") { emit_probe(X.c); X.c.end_func(); try { fin = X.c.finalize(); } catch (int ex) { fin = Error(ex); } }
+    else { emit_probe(X.b); try { fin = X.b.finalize(); } catch (int ex) { fin = Error(ex); } }
   }
   {
     CodeHolder code2; code2.init(env);
@@ -234,12 +372,83 @@ int main(int argc, char** argv) {
   for (auto& pb : probe_bytes) if (pb != fresh) mid_ok = false;
   std::string tail;
   if (bb && fin == Error::kOk) {
-    Section* text = code.text_section();
+    Section* text = X.code->text_section();
     size_t n = text->buffer_size();
     size_t fl = fresh.size() / 2;
-    if (n >= fl + (emitter == "compiler" ? 0 : 0)) tail = hexstr(text->data() + (n - fl), fl);
+    if (n >= fl) tail = hexstr(text->data() + (n - fl), fl);
   }
-  printf("{\"final\":1,\"used\":%s,\"fresh\":%s,\"mid_probes\":%zu,\"mid_ok\":%d,\"finalize\":%u,\"tail\":%s}\n",
-         jstr(used).c_str(), jstr(fresh).c_str(), probe_bytes.size(), int(mid_ok), unsigned(fin), jstr(tail).c_str());
+
+  // ---- pass 2 (Builder / Compiler): only the lines that failed, then the probe, finalized; vs a fresh emitter of the same kind
+  std::string p2_used, p2_fresh;
+  size_t p2_lines = 0, p2_accepted = 0, p2_nodes_left = 0;
+  int p2_fin = -1, p2_fresh_fin = -1;
+  if (bb && pass2) {
+    Ctx Y(env, emitter, handler, own, validate);
+    auto other_nodes = [&]() { size_t n = 0; for (BaseNode* nd = Y.bb->first_node(); nd; nd = nd->next()) if (!nd->is_label()) n++; return n; };
+    size_t base_nodes = other_nodes();      // (the harness' own label nodes - L:0 binds a label before the call - are not residue)
+    for (auto& fl : failed_lines) {
+      Case C; parse_case(Y, fl.second, C);
+      arm_oneshot(Y, C, fl.first);
+      size_t n0 = count_nodes(Y.bb);
+      bool t = false;
+      Error err = guarded_emit(Y, C, t);
+      clear_oneshot(Y.e);
+      p2_lines++;
+      if (err == Error::kOk) { p2_accepted++; if (count_nodes(Y.bb) == n0 + 1) Y.bb->remove_node(Y.bb->cursor()); }
+    }
+    p2_nodes_left = other_nodes() - base_nodes;
+    bool t = false;
+    if (emitter == "compiler") { emit_probe(Y.c); Y.c.end_func(); p2_fin = int(guarded_call([&] { return Y.c.finalize(); }, t)); }
+    else { emit_probe(Y.b); p2_fin = int(guarded_call([&] { return Y.b.finalize(); }, t)); }
+    if (p2_fin == 0) p2_used = text_hex(*Y.code);
+    Ctx Z(env, emitter, "return", false, validate);
+    if (emitter == "compiler") { emit_probe(Z.c); Z.c.end_func(); p2_fresh_fin = int(Z.c.finalize()); }
+    else { emit_probe(Z.b); p2_fresh_fin = int(Z.b.finalize()); }
+    if (p2_fresh_fin == 0) p2_fresh = text_hex(*Z.code);
+  }
+
+  // ---- isolated finalize (Compiler): one accepted line that mentions a virtual-range id, alone in a fresh function
+  std::string iso_json = "[";
+  size_t iso_runs = 0, iso_ghost = 0, iso_refused = 0;
+  for (auto& il : iso_lines) {
+    Ctx Y(env, emitter, handler, own, validate);
+    Y.c.mov(x86::Gp::make_r32(Y.real_virt[0]), 1);
+    Case C; parse_case(Y, il.second, C);
+    arm_oneshot(Y, C, il.first);
+    bool t = false;
+    Error err = guarded_emit(Y, C, t);
+    clear_oneshot(Y.e);
+    if (err != Error::kOk) continue;                  // (context dependent: not accepted this time)
+    Y.c.add(x86::Gp::make_r32(Y.real_virt[0]), x86::Gp::make_r32(Y.real_virt[0]));
+    Y.c.end_func();
+    Y.eh.calls = 0;
+    Error fe = guarded_call([&] { return Y.c.finalize(); }, t);
+    iso_runs++;
+    if (C.lead_ghost) iso_ghost++;
+    if (fe != Error::kOk) iso_refused++;
+    const char* problem = nullptr;
+    if (C.lead_ghost && fe == Error::kOk) problem = C.lead_invalid_id ? "never-refused:id-0xffffffff" : "never-refused:virtual-id";
+    else if (fe != Error::kOk && handler != "none" && Y.eh.calls == 0) problem = "finalize-handler-not-called";
+    else if (fe != Error::kOk && handler != "none" && Y.eh.calls != 1) problem = "finalize-handler-called-more-than-once";
+    else if (fe != Error::kOk && handler == "throw" && !t) problem = "finalize-exception-swallowed";
+    if (problem) {
+      char b2[200]; snprintf(b2, sizeof b2, "%s{\"case\":%zu,\"problem\":\"%s\",\"fin\":%u,\"h\":%d,\"ghost\":%d}", iso_json.size() > 1 ? "," : "", il.first, problem, unsigned(fe), Y.eh.calls, int(C.lead_ghost));
+      iso_json += b2;
+    }
+  }
+  iso_json += "]";
+
+  std::string dv = "[";
+  for (size_t i = 0; i < detached_viol.size() && i < 8; i++) { if (i) dv += ","; dv += jstr(detached_viol[i]); }
+  dv += "]";
+
+  printf("{\"final\":1,\"used\":%s,\"fresh\":%s,\"mid_probes\":%zu,\"mid_ok\":%d,\"finalize\":%u,\"tail\":%s,"
+         "\"reattaches\":%zu,\"detached_calls\":%zu,\"detached_viol\":%s,"
+         "\"p2_lines\":%zu,\"p2_accepted\":%zu,\"p2_nodes_left\":%zu,\"p2_fin\":%d,\"p2_fresh_fin\":%d,\"p2_used\":%s,\"p2_fresh\":%s,"
+         "\"iso_runs\":%zu,\"iso_ghost\":%zu,\"iso_refused\":%zu,\"iso_viol\":%s}\n",
+         jstr(used).c_str(), jstr(fresh).c_str(), probe_bytes.size(), int(mid_ok), unsigned(fin), jstr(tail).c_str(),
+         reattaches, detached_calls, dv.c_str(),
+         p2_lines, p2_accepted, p2_nodes_left, p2_fin, p2_fresh_fin, jstr(p2_used).c_str(), jstr(p2_fresh).c_str(),
+         iso_runs, iso_ghost, iso_refused, iso_json.c_str());
   return 0;
 }
